@@ -68,11 +68,17 @@ for k in sorted(os.listdir(out)):
                 "demo_exit_unchanged": rc_clean, "demo_tail_with_change": o_changed[-300:], "demo_tail_unchanged": o_clean[-200:]})
     confirmed = bool(okb and oks and rc_changed not in (0, None) and rc_clean == 0)
     rec["confirmed"] = confirmed
-    # run the checks against a scratch copy with the patch applied
+    # run the checks against a scratch copy of /repo's current tree with the patch applied; a patch that was rebased onto a later fix: commit
+    # lives in /verif/seeded/<id>/patch.diff and takes precedence over the sub-agent's original (which was confirmed above on the tree it was written for)
     chk = {}
+    seeded_patch = os.path.join(VERIF, "seeded", rec["id"], "patch.diff")
+    check_patch = os.path.join(d, "patch.diff")
+    rebased = False
+    if os.path.exists(seeded_patch) and open(seeded_patch).read() != open(check_patch).read():
+        check_patch, rebased = seeded_patch, True
     for c in checks:
         t0 = time.time()
-        rc, o = sh("python3 %s/selftest/mutant.py --patch %s/patch.diff --tier %s %s" % (VERIF, d, tier, c), timeout=7200)
+        rc, o = sh("python3 %s/selftest/mutant.py --patch %s --tier %s %s" % (VERIF, check_patch, tier, c), timeout=7200)
         keys = [l.split("key=")[1].split(" ")[0] for l in o.splitlines() if l.strip().startswith("key=")]
         ex = [l for l in o.splitlines() if l.startswith("==>")]
         chk[c] = {"exit": ex[-1].split()[-1] if ex else "?", "violation_keys": keys[:8], "wall_s": round(time.time() - t0, 1)}
@@ -84,6 +90,9 @@ for k in sorted(os.listdir(out)):
         dst = os.path.join(VERIF, "seeded", rec["id"])
         os.makedirs(dst, exist_ok=True)
         for f in ("patch.diff", "demo.cpp", "build.sh"):
+            if f == "patch.diff" and rebased:
+                shutil.copy(os.path.join(d, f), os.path.join(dst, "patch.original.diff"))   # as written by the sub-agent, for the tree before the later fix
+                continue
             if os.path.exists(os.path.join(d, f)):
                 shutil.copy(os.path.join(d, f), dst)
         try:
@@ -93,6 +102,8 @@ for k in sorted(os.listdir(out)):
         meta["confirmation"] = {"what_i_ran": "in scratch worktree %s: git apply patch.diff; cmake --build _build; ctest --test-dir _build -j8 (retry for flaky MC tests); sh build.sh (demo must fail); "
                                               "git checkout -- .; rebuild; sh build.sh (demo must pass); then selftest/mutant.py --patch patch.diff --tier %s %s" % (wt, tier, " ".join(checks)),
                                 "compiles": okb, "suite": os_, "demo_exit_with_change": rc_changed, "demo_exit_unchanged": rc_clean}
+        if rebased:
+            meta["rebased"] = "patch.diff was rebased by hand onto /repo HEAD after a later fix: commit touched the same lines; patch.original.diff is the sub-agent's patch for the earlier tree (demo confirmed on that tree)"
         meta["checks_run"] = chk
         meta["caught_by"] = rec["caught_by"]
         json.dump(meta, open(os.path.join(dst, "meta.json"), "w"), indent=1)
